@@ -371,6 +371,9 @@ def gen_lexicon(rng, lmfver, lexid, lexver, profile=None, base=None, language=No
                 # a new form on an external entry: outside the documented patterns when it carries
                 # tags/pronunciations (the library cannot address it), so it gets none
                 f = new_form(children=False)
+                # (entry, form, script) is unique in the store whichever lexicon contributes the form: two extensions of
+                # one base must not add the same form to the same entry, so each marks the forms it adds
+                f['writtenForm'] = f"{f['writtenForm']}~{lexid}"
                 key = (f['writtenForm'], f.get('script'))
                 if key in seen:
                     continue
